@@ -42,6 +42,9 @@ type RunCtx struct {
 	// NonTrivial: the run contained at least one context switch, fault or
 	// whatever the family's rule says.
 	NonTrivial bool
+	// HashSrc, when set, replaces the event log as the source of the replay
+	// hash (families whose violations are inherently probabilistic).
+	HashSrc string
 	// Shape is the family's notion of "distinct case" (hashed); defaults to the
 	// event log.
 	Shape string
@@ -71,7 +74,11 @@ func (rc *RunCtx) Count(key string, n int) { rc.Stats[key] += n }
 
 // Hash is the event-log hash that replay must reproduce.
 func (rc *RunCtx) Hash() string {
-	h := sha256.Sum256([]byte(strings.Join(rc.Log, "\n")))
+	src := strings.Join(rc.Log, "\n")
+	if rc.HashSrc != "" {
+		src = rc.HashSrc
+	}
+	h := sha256.Sum256([]byte(src))
 	return fmt.Sprintf("%x", h[:8])
 }
 
